@@ -161,7 +161,7 @@ def random_lg_spec(rng, nodes, edges):
 def gen_models(tier, seed):
     rng = O.mk_rng(seed, "c20-models")
     k = 0
-    for n in ((1, 2, 3) if tier == "quick" else (1, 2, 3, 4)):
+    for n in (1, 2, 3, 4):
         names = O.node_names(n, "long" if n != 2 else "x")
         for edges in O.all_dags(n, names):
             for rep in range(2 if n <= 3 else 1):
@@ -169,7 +169,7 @@ def gen_models(tier, seed):
                 rng.shuffle(nodes)
                 k += 1
                 yield {"spec": random_lg_spec(rng, nodes, edges), "qseed": k}
-    for n, cnt in ((4, 12 if tier == "quick" else 0), (5, 10 if tier == "quick" else 150), (6, 0 if tier == "quick" else 30)):
+    for n, cnt in ((5, 12 if tier == "quick" else 300), (6, 4 if tier == "quick" else 60)):
         for _ in range(cnt):
             names = O.node_names(n, "long")
             edges = O.random_dag(rng, n, rng.choice((0.4, 0.6, 0.8)), names)
@@ -231,7 +231,9 @@ def check_joint(case):
     return None
 
 
-def check_predict(case):
+def check_predict(case, part="joint-cov"):
+    """part = "mean": variable list, shapes, conditional means for every missing subset, conditional variance for a single missing
+    variable; part = "joint-cov": conditional covariance matrix for >= 2 missing variables."""
     import pandas as pd
 
     spec = case["spec"]
@@ -240,8 +242,9 @@ def check_predict(case):
         return None
     m = make_lgbn(spec)
     rng = O.mk_rng(case["qseed"], "predict")
-    deferred = None
     subsets = [list(c) for r in range(1, len(nodes)) for c in itertools.combinations(nodes, r)]
+    if part == "joint-cov":
+        subsets = [s_ for s_ in subsets if len(s_) >= 2]
     if len(nodes) > 4:
         subsets = [s for s in subsets if len(s) <= 2 or rng.random() < 0.3]
     for missing in subsets:
@@ -261,32 +264,51 @@ def check_predict(case):
         b = [nodes.index(v) for v in obs]
         if tuple(gmu.shape) != (3, len(gv)):
             return {"key": "predict:shape", "what": f"{where}: mean array has shape {gmu.shape}"}
+        # to_joint_gaussian documents rounding of mean / covariance to 8 decimals; predict conditions on the rounded moments.  The oracle
+        # therefore conditions (exactly) on the exact moments rounded to 8 decimals and widens the tolerance by the observed
+        # sensitivity to that rounding (zero whenever all moments have <= 8 decimals).
+        mu_r = [F(round(x, 8)) for x in mu]
+        S_r = [[F(round(x, 8)) for x in r] for r in S]
         want_cov = None
         for r_, r in enumerate(rows):
-            wm, want_cov = condition(mu, S, a, b, r)
+            wm, want_cov = condition(mu_r, S_r, a, b, r)
+            wm_x, wc_x = condition(mu, S, a, b, r)
+            slack = 4 * max([abs(p - q) for p, q in zip(wm, wm_x)] + [abs(p - q) for rp, rq in zip(want_cov, wc_x) for p, q in zip(rp, rq)])
             for j in range(len(gv)):
-                if not close(gmu[r_][j], wm[j], 1e-7, 1e-7):
+                if not close(gmu[r_][j], wm[j], 1e-7 + float(slack), 1e-7):
                     return {"key": "predict:mean", "what": f"{where}, row {[float(x) for x in r]}: E[{gv[j]} | obs] = {gmu[r_][j]}, exact {float(wm[j])} (returned order {gv})"}
         import numpy as np
 
         gc = np.asarray(gcov, dtype=float)
-        if gc.shape != (len(gv), len(gv)) or not mat_close(gc.tolist(), want_cov, 1e-7, 1e-7):
+        tol = 1e-7 + float(slack)
+        if part == "mean" and len(gv) >= 2:
+            continue
+        if gc.shape != (len(gv), len(gv)) or not mat_close(gc.tolist(), want_cov, tol, 1e-7):
             f = {"key": "predict:covariance", "what": f"{where}: conditional covariance over {gv} = {gc.tolist()}, exact Sigma_aa - Sigma_ab Sigma_bb^-1 Sigma_ba = {fl(want_cov)}"}
             if len(gv) >= 2 and gc.shape == (len(gv), len(gv)):
                 # signature of taking the diagonal of Sigma instead of the block Sigma_aa (only visible with >= 2 missing variables)
-                G = madd([[S[i][i] for i in a] for _ in a], madd(sub(S, a, a), want_cov, -1), -1)
-                if mat_close(gc.tolist(), G, 1e-7, 1e-7):
+                G = madd([[S_r[i][i] for i in a] for _ in a], madd(sub(S_r, a, a), want_cov, -1), -1)
+                if mat_close(gc.tolist(), G, tol, 1e-7):
                     f["key"] = "predict:submatrix"
                     f["what"] += "; the answer equals diag(Sigma)[missing] broadcast over the rows minus Sigma_ab Sigma_bb^-1 Sigma_ba"
-                    deferred = deferred or f
-                    continue
             return f
     try:
         m.predict(pd.DataFrame([[0.0] * len(nodes)], columns=nodes))
         return {"key": "predict:no-missing-accepted", "what": "no ValueError although no variable is missing"}
     except ValueError:
         pass
-    return deferred
+    return None
+
+
+def check_predict_mean(case):
+    return check_predict(case, part="mean")
+
+
+def gen_models_small(tier, seed):
+    """models for the joint-covariance group: the 4-node enumeration is thinned to every 9th DAG in the quick tier."""
+    for i, c in enumerate(gen_models(tier, seed)):
+        if len(c["spec"]["nodes"]) >= 3 and (tier != "quick" or len(c["spec"]["nodes"]) != 4 or i % 9 == 0):
+            yield c
 
 
 # ----------------------------------------------------------------------------- fit
@@ -438,7 +460,7 @@ def gen_gauss(tier, seed):
     rng = O.mk_rng(seed, "c20-gauss")
     k = 0
     for n in (1, 2, 3):
-        for rep in range((6, 14, 20)[n - 1] if tier == "quick" else 150):
+        for rep in range((8, 24, 40)[n - 1] if tier == "quick" else 300):
             names = GN[:n]
             rng.shuffle(names)
             g1 = random_gaussian(rng, names)
@@ -489,7 +511,6 @@ def check_gaussian_ops(case):
     n = len(vs)
     vals = [F(x) for x in case["values"]]
     rng = O.mk_rng(case["qseed"], "gops")
-    deferred = None
     base = make_gd(case["g1"])
     state0 = _gd_state(base)
     if not _gd_matches(base, vs, mu, S):
@@ -560,22 +581,46 @@ def check_gaussian_ops(case):
         if prod is None or list(prod.variables) != allv or not _gd_matches(prod, allv, mp, Sp, 1e-7):
             return {"key": "GaussianDistribution.product:result", "what": f"{nm}: N({vs}) * N({vs2}): variables {getattr(prod, 'variables', None)}, mean "
                                                                            f"{getattr(prod, 'mean', None)}, cov {getattr(prod, 'covariance', None)}; expected mean {[float(x) for x in mp]} cov {fl(Sp)} on {allv}"}
+    return None
+
+
+def check_product_inplace(case):
+    """GaussianDistribution.product / divide with the documented default inplace=True must turn the receiver into the result."""
+    vs, mu, S = _G(case["g1"])
+    vs2, mu2, S2 = _G(case["g2"])
+    K, h, _ = canonical_of(mu, S)
+    K2, h2, _ = canonical_of(mu2, S2)
+    allv = vs + [v for v in vs2 if v not in vs]
+    Kp = [[F(0)] * len(allv) for _ in allv]
+    hp = [F(0)] * len(allv)
+    for (vv, KK, hh) in ((vs, K, h), (vs2, K2, h2)):
+        for i, a in enumerate(vv):
+            hp[allv.index(a)] += hh[i]
+            for j, b in enumerate(vv):
+                Kp[allv.index(a)][allv.index(b)] += KK[i][j]
+    Sp = minv(Kp)
+    mp = [r[0] for r in mmul(Sp, [[x] for x in hp])]
+    ga, gb = make_gd(case["g1"]), make_gd(case["g2"])
+    state0, sb0 = _gd_state(ga), _gd_state(gb)
     r = ga.product(gb)  # documented default: in place
     if _gd_state(gb) != sb0:
-        return {"key": "GaussianDistribution.product:mutated-operand", "what": "in-place product changed the right operand"}
+        return {"key": "mutated-operand", "what": "in-place product changed the right operand"}
     if r is not None or list(ga.variables) != allv or not _gd_matches(ga, allv, mp, Sp, 1e-7):
-        f = {"key": "GaussianDistribution.product:inplace-noop" if _gd_state(ga) == state0 else "GaussianDistribution.product:inplace-result",
-             "what": f"N({vs}) .product( N({vs2}) ) with the default inplace=True returned {r!r} and left the receiver at variables {ga.variables}, "
-                     f"mean {ga.mean.reshape(-1).tolist()}; expected the product on {allv} with mean {[float(x) for x in mp]}"}
-        if f["key"].endswith("inplace-noop"):
-            deferred = deferred or f
-        else:
-            return f
-    return deferred
+        return {"key": "noop" if _gd_state(ga) == state0 else "result",
+                "what": f"N({vs}) .product( N({vs2}) ) with the default inplace=True returned {r!r} and left the receiver at variables {ga.variables}, "
+                        f"mean {ga.mean.reshape(-1).tolist()}; expected the product on {allv} with mean {[float(x) for x in mp]}"}
+    return None
 
 
-def check_canonical_ops(case):
-    """CanonicalDistribution C(x; K, h, g) = exp(g + h'x - x'Kx/2): marginalize / reduce / product / divide / to_joint_gaussian."""
+def gen_gauss_few(tier, seed):
+    for i, c in enumerate(gen_gauss(tier, seed)):
+        if i % 3 == 0 and i < 180:
+            yield c
+
+
+def check_canonical_ops(case, part="core"):
+    """CanonicalDistribution C(x; K, h, g) = exp(g + h'x - x'Kx/2): marginalize / reduce / product / divide / to_joint_gaussian.
+    part = "core": everything except the constant g after marginalize; part = "g": only that constant."""
     from pgmpy.factors.continuous import CanonicalDistribution
 
     vs, mu, S = _G(case["g1"])
@@ -586,7 +631,6 @@ def check_canonical_ops(case):
     K = minv(S)
     h = [F(x) for x in case["values"]][:n]
     g0 = F(case["g"])
-    deferred = None
 
     def mk():
         return CanonicalDistribution(list(vs), [[float(x) for x in r] for r in K], [[float(x)] for x in h], float(g0))
@@ -617,17 +661,25 @@ def check_canonical_ops(case):
             if obj is None or list(obj.variables) != keep or not mat_close(obj.K.tolist(), wK, 1e-8, 1e-8) or not mat_close(obj.h.tolist(), [[x] for x in wh], 1e-8, 1e-8):
                 return {"key": "CanonicalDistribution.marginalize:K-h", "what": f"{nm} drop {dshuf}: variables {getattr(obj, 'variables', None)} K {getattr(obj, 'K', None)} "
                                                                                 f"h {getattr(obj, 'h', None)}; expected K {fl(wK)} h {[float(x) for x in wh]}"}
-            if not close(obj.g, wg, 1e-8, 1e-8):
-                f = {"key": "CanonicalDistribution.marginalize:g",
+            if part == "g" and not close(obj.g, wg, 1e-8, 1e-8):
+                f = {"key": "wrong",
                      "what": f"{nm} drop {dshuf} from K={fl(K)}, h={[float(x) for x in h]}, g={float(g0)}: g' = {obj.g}; integrating exp(g + h'x - x'Kx/2) over "
                              f"{dshuf} gives g + (|j| log 2pi - log|K_jj| + h_j' K_jj^-1 h_j)/2 = {wg}"}
                 # signature seen on the unchanged tree: h_j' K_jj h_j (no inverse) in the quadratic term
                 alt = float(g0) + 0.5 * (len(j) * math.log(2 * math.pi) - math.log(float(mdet(sub(K, j, j)))) + float(mmul(mmul(mT(hj), sub(K, j, j)), hj)[0][0]))
                 if close(obj.g, alt, 1e-8, 1e-8):
-                    f["key"] = "CanonicalDistribution.marginalize:g-uninverted-Kjj"
-                    deferred = deferred or f
-                else:
-                    return f
+                    f["key"] = "uninverted-Kjj"
+                return f
+    if part == "g":
+        # definition-level cross-check without the formula above: marginalising the canonical form of a normalised Gaussian
+        # must give the canonical form of its marginal (the density integrates to the marginal density, constant included)
+        if n >= 2:
+            gd = make_gd(case["g1"])
+            lhs = gd.to_canonical_factor().marginalize([vs[-1]], inplace=False)
+            rhs = gd.marginalize([vs[-1]], inplace=False).to_canonical_factor()
+            if not close(lhs.g, rhs.g, 1e-8, 1e-8):
+                return {"key": "wrong", "what": f"canonical form of N({vs}) marginalised over {vs[-1]}: g = {lhs.g}, canonical form of the marginal: g = {rhs.g}"}
+        return None
     # ---- reduce: plug x_j = y in
     for red in [list(c) for r in range(1, n) for c in itertools.combinations(vs, r)]:
         keep = [v for v in vs if v not in red]
@@ -684,37 +736,46 @@ def check_canonical_ops(case):
                     or not mat_close(obj.h.tolist(), [[x] for x in hp], 1e-8, 1e-8) or not close(obj.g, wg, 1e-8, 1e-8)):
                 return {"key": f"CanonicalDistribution.{op}:result", "what": f"{nm} C({vs}) {op} C({vs2}): variables {getattr(obj, 'variables', None)} K {getattr(obj, 'K', None)} "
                                                                              f"h {getattr(obj, 'h', None)} g {getattr(obj, 'g', None)}; expected on {allv}: K {fl(Kp)} h {[float(x) for x in hp]} g {wg}"}
-    # ---- definition-level cross-check without the formulas above: marginalising the canonical form of a normalised Gaussian
-    #      must give the canonical form of its marginal (the density integrates to the marginal density, constant included)
     if n >= 2:
         gd = make_gd(case["g1"])
-        drop = [vs[-1]]
-        lhs = gd.to_canonical_factor().marginalize(list(drop), inplace=False)
-        rhs = gd.marginalize(list(drop), inplace=False).to_canonical_factor()
+        lhs = gd.to_canonical_factor().marginalize([vs[-1]], inplace=False)
+        rhs = gd.marginalize([vs[-1]], inplace=False).to_canonical_factor()
         if not (mat_close(lhs.K.tolist(), rhs.K.tolist(), 1e-8, 1e-8) and mat_close(lhs.h.tolist(), rhs.h.tolist(), 1e-8, 1e-8)):
             return {"key": "CanonicalDistribution.marginalize:K-h", "what": "canonical(marginal) != marginal(canonical)"}
-        if not close(lhs.g, rhs.g, 1e-8, 1e-8) and deferred is None:
-            return {"key": "CanonicalDistribution.marginalize:g", "what": f"canonical form of N({vs}) marginalised over {drop}: g = {lhs.g}, canonical form of the marginal: g = {rhs.g}"}
-    return deferred
+    return None
+
+
+def check_canonical_g(case):
+    return check_canonical_ops(case, part="g")
 
 
 def groups(tier):
-    mb = ("every DAG <= 3 nodes x 2 parameterisations (thorough: + all 543 four-node DAGs) + seeded 4-5 (5-6) node DAGs; coefficients and "
+    mb = ("every DAG <= 3 nodes x 2 parameterisations, all 543 four-node DAGs, 16 (360) seeded 5-6 node DAGs; coefficients and "
           "variances small rationals, node insertion order and CPD parent order shuffled")
+    nt = lambda c: len(c["spec"]["edges"]) >= 1
     return [
-        Group("to_joint_gaussian", gen_models, check_joint, lambda c: len(c["spec"]["edges"]) >= 1, engine="E3", bound=mb),
-        Group("predict", gen_models, check_predict, lambda c: len(c["spec"]["edges"]) >= 1, seed_fanout=4, engine="E3",
+        Group("to_joint_gaussian", gen_models, check_joint, nt, engine="E3", bound=mb),
+        Group("predict_mean", gen_models, check_predict_mean, nt, seed_fanout=4, engine="E3",
               bound=mb + "; every non-empty proper subset of missing variables (> 4 nodes: all of size <= 2, 30% of the rest), 3 data rows, "
-                         "observed columns in shuffled order; 4 hash seeds per case"),
+                         "observed columns in shuffled order: variable list, conditional means, conditional variance of a single missing "
+                         "variable; 4 hash seeds per case"),
+        Group("predict", gen_models_small, check_predict, nt, seed_fanout=2, engine="E3",
+              bound="models with >= 3 nodes (quick: every 9th four-node DAG): conditional covariance matrix for every subset of >= 2 missing variables"),
         Group("fit", gen_fit, check_fit, lambda c: len(c["edges"]) >= 1, engine="E3",
               bound="every DAG <= 3 nodes + 12 (200) four-node DAGs, exact integer / half-integer data sets with 6-12 rows (rank-deficient designs "
                     "skipped), shuffled and extra columns; residual variance convention RSS/(n-1)"),
-        Group("simulate", gen_models, check_simulate, lambda c: len(c["spec"]["edges"]) >= 1, engine="E3",
+        Group("simulate", gen_models, check_simulate, nt, engine="E3",
               bound=mb + "; n=4000 draws: same seed twice, other seed, column set, per-column mean within 8 standard errors, variance within 25%"),
         Group("gaussian_ops", gen_gauss, check_gaussian_ops, lambda c: len(c["g1"]["vars"]) >= 2, engine="E3",
-              bound="40 (450) seeded Gaussians of dimension 1-3 (rational PD covariance), every marginalised / reduced subset in both inplace modes, "
-                    "canonical conversion and round trip, product with a second Gaussian of dimension 1-3 on an overlapping / disjoint scope"),
+              bound="72 (900) seeded Gaussians of dimension 1-3 (rational PD covariance), every marginalised / reduced subset in both inplace modes, "
+                    "canonical conversion and round trip, out-of-place product / * with a second Gaussian of dimension 1-3 on an overlapping / "
+                    "disjoint scope"),
+        Group("gaussian_product_inplace", gen_gauss_few, check_product_inplace, lambda c: True, engine="E3",
+              bound="every third of the first 180 Gaussian pairs: product with the default inplace=True"),
         Group("canonical_ops", gen_gauss, check_canonical_ops, lambda c: len(c["g1"]["vars"]) >= 2, engine="E3",
-              bound="same seeds: unnormalised canonical factors (PD K, arbitrary h, g): marginalize, reduce, to_joint_gaussian, product, divide, "
-                    "operators, both inplace modes; marginal(canonical(N)) == canonical(marginal(N))"),
+              bound="same seeds: unnormalised canonical factors (PD K, arbitrary h, g): marginalize (K, h), reduce, to_joint_gaussian, product, "
+                    "divide, operators, both inplace modes; K, h of marginal(canonical(N)) == canonical(marginal(N))"),
+        Group("canonical_marginalize_g", gen_gauss_few, check_canonical_g, lambda c: len(c["g1"]["vars"]) >= 2, engine="E3",
+              bound="every third of the first 180 canonical factors: constant g after marginalize against the Gaussian integral, and against "
+                    "canonical(marginal(N))"),
     ]
